@@ -79,6 +79,26 @@ MISSED = {
     "C18-G": "owned guards were never dropped by unwinding",
     "C19-H": "a refused value's effect on a long-lived Mean was not inspected",
     "C20-G": "histograms were only fed through record(), with values below 2^32",
+    # round 5
+    "C01-I": "shutdown_timeout was never configured; no shutdown from an old, stalled writer iteration",
+    "C01-J": "subscriber legs used a subscriber that lets errors through",
+    "C02-I": "outputs took every byte they were offered",
+    "C03-J": "no dimension value spelled out another dimension set",
+    "C04-J": "the never-empty-queue monitor's stream never refused an entry",
+    "C05-I": "no entry was appended while the writer sat between its periodic flush and its shutdown check",
+    "C05-J": "the streams of the shutdown histories never failed",
+    "C06-I": "no force-flush guard outlived its entry into the next entry's life on the same thread",
+    "C09-J": "no appends while a shutdown was pending with the writer held",
+    "C10-I": "every flush future was awaited to completion",
+    "C12-I": "ordering was judged by the sampler's own averages; no group with an every-other-interval pattern over many intervals",
+    "C12-J": "ordering was judged by the sampler's own averages (corrupted consistently by the defect)",
+    "C13-J": "only builds with debug assertions",
+    "C15-I": "no wrapped write ever unwound",
+    "C16-J": "one failing queue at a time",
+    "C17-I": "all global sink types had different names",
+    "C17-J": "when routing moved on during a detach was not compared with when the detached sink finished flushing",
+    "C19-I": "lying values wrote a unit of another KIND, never the same kind at another scale",
+    "C20-I": "gauges only took finite values",
 }
 
 
